@@ -247,6 +247,25 @@ def run(ctx):
             if ok_ is not True:
                 ctx.violation('a valid signature with a short r is not accepted in one of its documented forms', {'op': 'verify short-r', 'form': nm, 'length': len(der_), 'observed': str(ok_)})
         cases.append(('ecdsa_verify_rs %s %s %d %d' % (kd.public_byte.hex(), zh(zz), sg_.r, sg_.s), 'true' if sg_.s <= N // 2 else 'true-but-high-s', True)) if False else None
+    # ---- raw 64-byte signatures whose first bytes read like the head of a DER sequence (r = 30 3d ...: nonces found by search): the raw
+    # form r || s of a valid signature is accepted like any other
+    for knonce in (15838, 67255, 68436):
+        kd = Key(rng.randrange(1, N))
+        zz = rng.getrandbits(256)
+        try:
+            sg_ = sign(zh(zz), kd, k=knonce)
+        except Exception as e:
+            ctx.count('der-looking-r-signature-not-created')
+            continue
+        ctx.count('raw-signature-beginning-%s' % sg_.bytes()[:2].hex())
+        for nm, form in (('raw64', sg_.bytes()), ('raw64-hex', sg_.bytes().hex()), ('der+hashtype', sg_.as_der_encoded()), ('object', sg_)):
+            try:
+                ok_ = verify(zh(zz), form, kd.public())
+            except Exception as e:
+                ok_ = 'raise:' + type(e).__name__
+            ctx.evals += 1
+            if ok_ is not True:
+                ctx.violation('a valid signature whose r begins like a DER sequence is not accepted in one of its documented forms', {'op': 'verify der-looking-r', 'form': nm, 'nonce': knonce, 'observed': str(ok_)})
     # ---- a "public key" that is not a point of the curve verifies nothing, also when it comes as a Key object made with strict=False
     # (the kind non-strict transaction parsing creates)
     P_ = 2 ** 256 - 2 ** 32 - 977
